@@ -14,16 +14,17 @@ def pos? : Sx → Option Pos
 def ostyle? (st pos clear : Sx) : Option OStyle := do
   pure { toPStyle := (← style? st), pos := (← pos? pos), clear := (← clear.bool?) }
 
-/-- `inOof`: inside an out-of-flow box only static boxes are accepted (grammar of stage 2a). -/
-partial def box? (inOof : Bool) : Sx → Option OBox
+/-- `inAbs`: inside an absolutely positioned box no absolutely positioned box is accepted (its placeholder would go
+to the `absolute_boxes` list of that box, not of the page: outside the grammar of stage 2a). -/
+partial def box? (inAbs : Bool) : Sx → Option OBox
   | .list [.atom "para", id, n, lh, st, pos, clear] => do
     let st ← ostyle? st pos clear
-    if inOof && st.pos != .static then none
+    if inAbs && st.pos == .abs then none
     pure (.para (← id.nat?) (← n.nat?) (← lh.rat?) st)
   | .list [.atom "block", id, st, pos, clear, .list kids] => do
     let st ← ostyle? st pos clear
-    if inOof && st.pos != .static then none
-    pure (.block (← id.nat?) st (← allSome (box? (inOof || st.pos != .static)) kids))
+    if inAbs && st.pos == .abs then none
+    pure (.block (← id.nat?) st (← allSome (box? (inAbs || st.pos == .abs)) kids))
   | _ => none
 
 /-- The root and its single child (html, body) are static blocks. -/
